@@ -129,6 +129,17 @@ def _shrink(check, case, violation, budget_s, max_tries):
     return case, violation, tries
 
 
+RSS_LIMIT_MB = int(os.environ.get("VERIF_WORKER_RSS_MB", "1400"))
+
+
+def _rss_mb():
+    try:
+        with open("/proc/self/statm") as f:
+            return int(f.read().split()[1]) * (os.sysconf("SC_PAGE_SIZE") / 1048576.0)
+    except Exception:  # noqa: BLE001
+        return 0.0
+
+
 def _child_main(check, conn, verif_seed, tier):
     _child_setup()
     while True:
@@ -151,7 +162,14 @@ def _child_main(check, conn, verif_seed, tier):
                 res["wall"] = time.time() - t0
                 if res["violations"] or res.get("harness_error") or msg[2]:
                     res["case"] = case
+                # the solver stack (cvxpy / CBC / numba typed lists) keeps growing in a long-lived process: a worker
+                # that has grown beyond the limit asks to be replaced by a fresh fork of the parent
+                recycle = _rss_mb() > RSS_LIMIT_MB
+                if recycle:
+                    res["_recycle"] = True
                 conn.send(res)
+                if recycle:
+                    return
             elif kind == "case":
                 res = safe_run(check, msg[1])
                 res["case"] = msg[1]
@@ -332,6 +350,10 @@ def run_batch(check, tier, verif_seed, procs=None, runs=None, wall=None, digests
                     workers[workers.index(w)] = w = Worker(ctx, check, verif_seed, tier)
                 inflight -= 1
                 agg.add(res, True)
+                if res.get("_recycle"):
+                    agg.stats["workers_recycled"] = agg.stats.get("workers_recycled", 0) + 1
+                    w.stop()
+                    workers[workers.index(w)] = w = Worker(ctx, check, verif_seed, tier)
                 feed(w)
             elif now - w.busy_since > run_timeout:
                 idx = w.task[1]
